@@ -529,6 +529,16 @@ class Interp(object):
                         self._subst_sym(state, atoms_[0], k)
             if isinstance(test, ast.Name):
                 return
+        # `x[0] == 0` holds (or `x[0] != 0` fails): the array held by the local x starts with a zero
+        if isinstance(test, ast.Compare) and len(test.ops) == 1 and isinstance(test.ops[0], (ast.Eq, ast.NotEq)):
+            for a_, b_ in ((test.left, test.comparators[0]), (test.comparators[0], test.left)):
+                if isinstance(a_, ast.Subscript) and isinstance(a_.value, ast.Name) and isinstance(a_.slice, ast.Constant) and type(a_.slice.value) is int \
+                        and a_.slice.value == 0 and isinstance(b_, ast.Constant) and type(b_.value) in (int, float) and b_.value == 0:
+                    if isinstance(test.ops[0], ast.Eq) == branch:
+                        cur = state.env.get(a_.value.id)
+                        if cur is not None and cur.kind == K_ARRAY and not cur.f0:
+                            state.env[a_.value.id] = cur.replace(f0=True)
+                    break
         if isinstance(test, ast.Compare) and len(test.ops) == 1 and isinstance(test.left, ast.Name):
             op, right = test.ops[0], test.comparators[0]
             if isinstance(right, ast.Constant) and right.value == 0 and not isinstance(right.value, bool):
